@@ -466,4 +466,12 @@ def run(ctx):
     ctx.guard("stride", "sse41", lambda: C16.check_stride(ctx, P3, "sse41", 4, "reference"))
     ctx.guard("stride", "avx", lambda: C16.check_stride(ctx, progs["K4"], "avx", 8, "sse41"))
     ctx.trusted.append("definition-derived oracle cxsa/spec/hashes.py; ssa evaluator and bit provenance; value-graph evaluator cxsa/simd.py (x86 intrinsic semantics)")
-    ctx.not_decided += ["compression functions and permutations as numerical functions (round structure, message schedule, G mixing)", "SIMD paths (C16)"]
+    from . import sha2eq
+    got3 = []
+    allp = dict(progs)
+    allp["K0"] = P
+    allp["K3"] = P3
+    ctx.guard("compress-eq", "sha256", lambda: got3.append(sha2eq.check_sha256(ctx, allp, thorough=(ctx.tier == "thorough"))))
+    want3 = 6 + (2 if ctx.tier == "thorough" else 0)
+    ctx.check(got3 == [want3], "floor", "compress-eq", "%d SHA-256 block-function runs equal the FIPS 180-4 compression function as value graphs" % want3, "only %s SHA-256 comparisons ran (expected %d)" % (got3, want3), key="floor:compress-eq")
+    ctx.not_decided += ["the compression functions of SHA-1, SHA-512, RIPEMD-160 and Keccak-f as numerical functions (their constants, rotation sets, padding, length fields and output truncation are decided; SHA-256 and BLAKE2 are decided as value graphs in every build configuration)"]
